@@ -27,7 +27,7 @@ void f_error (void) {
   size_t len = SVALUE_STRLEN (sp);
   char err_buf[2048];
 
-  if (sp->u.string[len - 1] == '\n')
+  if (len && sp->u.string[len - 1] == '\n')
     len--;
   if (len > 2045)
     len = 2045;
